@@ -175,11 +175,12 @@ R.invariant(
         # the buffer holds exactly the written bytes that are not yet acknowledged-and-trimmed
         "forall(lambda x: implies(self._buffer_start <= x < self._buffer_stop, at(self._buffer, x - self._buffer_start) == self.gW[x]))",
         # acknowledged-but-not-trimmed ranges lie strictly above the trim position, inside the buffer, and are not pending
-        "self._acked != self._pending",
+        "self._acked is not self._pending",
         "forall(lambda x: implies(self._acked.gview[x], self._buffer_start < x))",
         "forall(lambda x: implies(self._acked.gview[x], x < self._buffer_stop))",
         "forall(lambda x: implies(self._acked.gview[x], not self._pending.gview[x]))",
         "self._buffer_fin is None or self._buffer_fin == self._buffer_stop",
+        "not self._pending_eof or self._buffer_fin is not None",
         "self.highest_offset <= self._buffer_stop",
     ],
 )
